@@ -16,8 +16,8 @@
      missing_paths e f t d sc    the scopes (seg lists) of the absent required fields; MissingProofs.missing_spec is its image
                                  under scope_string ([missing_spec_paths])
      reported .. f t d sc        map scope_string (filter (not excluded_at) (missing_paths ..))          ([reported_eq])
-     decode_specX                MissingProofs.decode_spec with the default literals decoded under the same spec (the model's
-                                 choice, see [lits_agree]); equal to decode_spec when [lits_agree] ([decode_specX_eq])
+   The decoded value is MissingProofs.decode_spec, the same function as without exclusions (the default literals are read with
+   NewJsonReader, i.e. without exclusions, by the generated code and by the model alike); the spec enters only through the raising flag.
 
    Method: one generic missing-set function [missingG] (output type and "what to emit at an absent required field" abstract) gives
    the strings, the paths and the filtered strings by instantiation; one step of the decoder is characterised for an arbitrary spec
@@ -655,6 +655,48 @@ Section StepExactX.
   Qed.
 End StepExactX.
 
+(* the decoded value depends on the recursive call only through the decoding of the default literals *)
+Section ValExt.
+  Variable e : env.
+  Variable parseF : nat -> bytes -> option N.
+
+  Lemma fill_defaults_ext DJ1 DJ2 : forall fs0 fs fvs, (forall fd, In fd fs -> In fd fs0) ->
+    (forall fd lit, In fd fs0 -> f_opt fd = Default lit -> lit_valueS DJ1 (f_ty fd) lit = lit_valueS DJ2 (f_ty fd) lit) ->
+    fill_defaultsS DJ1 fs fvs = fill_defaultsS DJ2 fs fvs.
+  Proof.
+    intros fs0. induction fs as [|fd fs IH]; intros fvs Hsub H; [reflexivity|]. destruct fvs as [|ov fvs]; [reflexivity|].
+    cbn [fill_defaultsS]. rewrite (IH fvs) by (intros; try apply Hsub; try right; auto). f_equal.
+    destruct ov; [reflexivity|]. destruct (f_opt fd) eqn:Eo; try reflexivity. apply H; [apply Hsub; left; reflexivity|exact Eo].
+  Qed.
+
+  Lemma fold_left_ext_in {A B} (F G : A -> B -> A) : forall l a, (forall a b, In b l -> F a b = G a b) -> fold_left F l a = fold_left G l a.
+  Proof.
+    induction l as [|b l IH]; intros a H; [reflexivity|]. simpl. rewrite (H a b) by (left; reflexivity).
+    apply IH. intros a' b' Hin. apply H. right; exact Hin.
+  Qed.
+
+  Lemma val_step_ext DJ1 DJ2 VS1 VS2 r t d :
+    (forall t x, VS1 t x = VS2 t x) ->
+    (forall n incs fs fd lit, lookup e n = Some (DRecord incs fs) -> In fd fs -> f_opt fd = Default lit ->
+       lit_valueS DJ1 (f_ty fd) lit = lit_valueS DJ2 (f_ty fd) lit) ->
+    val_step e parseF DJ1 VS1 r t d = val_step e parseF DJ2 VS2 r t d.
+  Proof.
+    intros HV HL. destruct t as [p|syms|sz|n|t'|t']; cbn [val_step]; try reflexivity.
+    - destruct (lookup e n) as [[incs fs|nullable ms]|] eqn:El; [| |reflexivity].
+      + rewrite (rec_upd_ext e (S (length e)) n (look_of e VS1 n (entries_of d)) (look_of e VS2 n (entries_of d))).
+        2:{ intros key. unfold look_of. destruct (present _ _); [|reflexivity]. destruct (field_of e n key); [|reflexivity].
+            rewrite HV. reflexivity. }
+        destruct (r || negb (own_has_default fs)); [reflexivity|].
+        destruct (rec_upd _ _ _ _ _); try reflexivity. f_equal.
+        apply (fill_defaults_ext DJ1 DJ2 fs); [auto|]. intros fd lit Hin Ho. apply (HL n incs fs fd lit El Hin Ho).
+      + f_equal. unfold union_val. apply fold_left_ext_in. intros uv kx _. destruct (is_null (snd kx)); [reflexivity|].
+        destruct (index_of _ _ _); [|reflexivity]. destruct (assoc_ty _ _); [|reflexivity]. rewrite HV. reflexivity.
+    - destruct d; try reflexivity. f_equal. apply map_ext. intros x. apply HV.
+    - do 2 f_equal. apply map_ext. intros kx. rewrite HV. reflexivity.
+  Qed.
+
+End ValExt.
+
 (* ---------------------------------------------------------------------------------------------------------------------------
    4. the decoder under an arbitrary exclusion spec, exactly (induction on the fuel)
    --------------------------------------------------------------------------------------------------------------------------- *)
@@ -668,13 +710,13 @@ Section ExactX.
   Notation decJx := (decJ e wc excl ignore parseF).
   Notation well_shaped := (well_shaped e parseF).
 
-  (* the decoded value: MissingProofs.val_step field by field in schema order; the default literals are decoded by the model's
-     decJ under the SAME exclusion spec (see [lits_agree] below) *)
-  Fixpoint decode_specX (fuel : nat) (raising : bool) (t : ty) (d : jdoc) : value :=
-    match fuel with
-    | 0 => dummy_value
-    | S f => val_step e parseF (decJx f) (decode_specX f false) raising t d
-    end.
+  Notation decode_spec := (decode_spec e wc ignore parseF).
+
+  (* the decoded value is MissingProofs.decode_spec, the SAME function as without exclusions: the generated code reads the default
+     literals with NewJsonReader (Decode.v: decJ calls itself with ps_empty and 0 there), so the spec cannot reach them *)
+  Lemma val_excl_irrelevant f VS r t d :
+    val_step e parseF (djmix e wc excl ignore parseF f) VS r t d = val_step e parseF (djmix e wc ps_empty ignore parseF f) VS r t d.
+  Proof. apply val_step_ext; [reflexivity|]. intros; reflexivity. Qed.
 
   (* the reported set: the absent required fields whose path is not excluded *)
   Definition reported (fuel : nat) (t : ty) (d : jdoc) (sc : list seg) : list bytes :=
@@ -690,17 +732,21 @@ Section ExactX.
     | Some p => decJx fuel top t d tr = Err (EExcluded (scope_string p))
     | None =>
         exists tr',
-          decJx fuel top t d tr = Ok (decode_specX fuel (raisesX fuel top t d tr) t d, tr') /\
+          decJx fuel top t d tr = Ok (decode_spec fuel (raisesX fuel top t d tr) t d, tr') /\
           t_scope tr' = t_scope tr /\
           Permutation (t_missing tr') (t_missing tr ++ reported fuel t d (t_scope tr))
     end.
   Proof.
     induction fuel as [|f IH]; intros top t d tr Hws Hsc Hke; [contradiction|].
-    rewrite decJ_unfold. unfold raisesX, reported, missing_specX. cbn [decode_specX missingG first_excluded].
-    apply (stepJ_exactX e wc excl ignore parseF (decJx f) Hwf (well_shaped f) (decode_specX f false)
-             (missingG e bytes (fun p => if negb (exb p) then [scope_string p] else []) f) (first_excluded e exb f));
-      [|exact Hws|exact Hsc|exact Hke].
-    intros t0 x tr0 Hw Hne Hne2. apply (IH false t0 x tr0 Hw Hne2). intros E; contradiction.
+    rewrite decJ_unfold. unfold raisesX, reported, missing_specX. cbn [MissingProofs.decode_spec missingG first_excluded].
+    pose proof (stepJ_exactX e wc excl ignore parseF (djmix e wc excl ignore parseF f) Hwf (well_shaped f) (decode_spec f false)
+                  (missingG e bytes (fun p => if negb (exb p) then [scope_string p] else []) f) (first_excluded e exb f)) as H.
+    assert (Hchild : child_okX (djmix e wc excl ignore parseF f) (well_shaped f) (decode_spec f false)
+                       (missingG e bytes (fun p => if negb (exb p) then [scope_string p] else []) f) (first_excluded e exb f)).
+    { intros t0 x tr0 Hw Hne Hne2. apply (IH false t0 x tr0 Hw Hne2). intros E; contradiction. }
+    specialize (H Hchild top t d tr Hws Hsc Hke).
+    destruct (fe_step e exb (first_excluded e exb f) t d (t_scope tr)) as [p|]; [exact H|].
+    destruct H as [tr' [H1 [H2 H3]]]. exists tr'. rewrite H1, val_excl_irrelevant. auto.
   Qed.
 
   (* ---- the top level: NewJsonReaderWithExcludedFields + UnmarshalRestLi ---- *)
@@ -711,8 +757,8 @@ Section ExactX.
     | Some p => DErr (EExcluded (scope_string p))
     | None =>
         match reported fuel t jd [] with
-        | [] => DOk (decode_specX fuel false t jd)
-        | ms => DMissing (sort_bytes ms) (decode_specX fuel true t jd)
+        | [] => DOk (decode_spec fuel false t jd)
+        | ms => DMissing (sort_bytes ms) (decode_spec fuel true t jd)
         end
     end.
   Proof.
@@ -735,7 +781,7 @@ Section ExactX.
     decode_json e wc excl ignore parseF fuel t data =
     match first_excluded e exb fuel t jd [] with
     | Some p => DErr (EExcluded (scope_string p))
-    | None => DOk (decode_specX fuel (negb (is_nilb (reported fuel t jd []))) t jd)
+    | None => DOk (decode_spec fuel (negb (is_nilb (reported fuel t jd []))) t jd)
     end.
   Proof.
     intros fuel t data jd Hrec [Hne [Hnull [Hp Hke]]] Hws. unfold decode_json.
@@ -1096,7 +1142,7 @@ Section D1.
     is_record e t = true -> top_ok data jd -> well_shaped fuel t jd ->
     (forall p, ~ carries e exb t jd [] p) ->
     (forall p, In p (missing_paths e fuel t jd []) -> exb p = true) ->
-    decode_json e wc excl ignore parseF fuel t data = DOk (decode_specX e wc excl ignore parseF fuel false t jd).
+    decode_json e wc excl ignore parseF fuel t data = DOk (decode_spec e wc ignore parseF fuel false t jd).
   Proof.
     intros fuel t data jd Hrec Htop Hws Hnc Hall. rewrite (missing_exactX e wc excl ignore parseF Hwf fuel t data jd Hrec Htop Hws).
     destruct (first_excluded e exb fuel t jd []) as [p|] eqn:E.
@@ -1125,10 +1171,6 @@ Section EmptySpec.
     unfold reported. rewrite <- missing_specX_all. unfold missing_specX. apply missingG_ext.
     intros p. rewrite excluded_at_empty_spec. reflexivity.
   Qed.
-
-  Lemma decode_specX_empty : forall fuel r t d,
-    decode_specX e wc ps_empty ignore parseF fuel r t d = decode_spec e wc ignore parseF fuel r t d.
-  Proof. reflexivity. Qed.
 
   Hypothesis Hwf : wf_schema e.
 
@@ -1217,96 +1259,17 @@ Proof.
   intros Hw. unfold excluded_at. rewrite andb_true_iff, Nat.ltb_lt, (matches_iff_spec wc ds _ Hw). reflexivity.
 Qed.
 
-(* ---- the decoded value: the same function of the document as without exclusions; the spec enters only through the
-        raising flag and (model only) through the decoding of default literals ---- *)
+(* ---- the decoded value: MissingProofs.decode_spec, the same function of the document as without exclusions; the spec enters
+        only through the raising flag ---- *)
 Section Value.
   Variable e : env.
   Variables (wc : bytes) (excl : pathspec) (ignore : nat).
   Variable parseF : nat -> bytes -> option N.
-  Notation decJx := (decJ e wc excl ignore parseF).
-  Notation decJ0 := (decJ e wc ps_empty ignore parseF).
-
-  (* the model decodes the schema's default literals with the SAME exclusion spec (Decode.v lit_value), the generated Go code
-     with NewJsonReader, i.e. without any: the two agree when ... *)
-  Definition lits_agree : Prop :=
-    forall n incs fs fd lit f, lookup e n = Some (DRecord incs fs) -> In fd fs -> f_opt fd = Default lit ->
-      lit_valueS (decJx f) (f_ty fd) lit = lit_valueS (decJ0 f) (f_ty fd) lit.
-
-  Lemma fill_defaults_ext DJ1 DJ2 : forall fs0 fs fvs, (forall fd, In fd fs -> In fd fs0) ->
-    (forall fd lit, In fd fs0 -> f_opt fd = Default lit -> lit_valueS DJ1 (f_ty fd) lit = lit_valueS DJ2 (f_ty fd) lit) ->
-    fill_defaultsS DJ1 fs fvs = fill_defaultsS DJ2 fs fvs.
-  Proof.
-    intros fs0. induction fs as [|fd fs IH]; intros fvs Hsub H; [reflexivity|]. destruct fvs as [|ov fvs]; [reflexivity|].
-    cbn [fill_defaultsS]. rewrite (IH fvs) by (intros; try apply Hsub; try right; auto). f_equal.
-    destruct ov; [reflexivity|]. destruct (f_opt fd) eqn:Eo; try reflexivity. apply H; [apply Hsub; left; reflexivity|exact Eo].
-  Qed.
-
-  Lemma fold_left_ext_in {A B} (F G : A -> B -> A) : forall l a, (forall a b, In b l -> F a b = G a b) -> fold_left F l a = fold_left G l a.
-  Proof.
-    induction l as [|b l IH]; intros a H; [reflexivity|]. simpl. rewrite (H a b) by (left; reflexivity).
-    apply IH. intros a' b' Hin. apply H. right; exact Hin.
-  Qed.
-
-  Lemma val_step_ext DJ1 DJ2 VS1 VS2 r t d :
-    (forall t x, VS1 t x = VS2 t x) ->
-    (forall n incs fs fd lit, lookup e n = Some (DRecord incs fs) -> In fd fs -> f_opt fd = Default lit ->
-       lit_valueS DJ1 (f_ty fd) lit = lit_valueS DJ2 (f_ty fd) lit) ->
-    val_step e parseF DJ1 VS1 r t d = val_step e parseF DJ2 VS2 r t d.
-  Proof.
-    intros HV HL. destruct t as [p|syms|sz|n|t'|t']; cbn [val_step]; try reflexivity.
-    - destruct (lookup e n) as [[incs fs|nullable ms]|] eqn:El; [| |reflexivity].
-      + rewrite (rec_upd_ext e (S (length e)) n (look_of e VS1 n (entries_of d)) (look_of e VS2 n (entries_of d))).
-        2:{ intros key. unfold look_of. destruct (present _ _); [|reflexivity]. destruct (field_of e n key); [|reflexivity].
-            rewrite HV. reflexivity. }
-        destruct (r || negb (own_has_default fs)); [reflexivity|].
-        destruct (rec_upd _ _ _ _ _); try reflexivity. f_equal.
-        apply (fill_defaults_ext DJ1 DJ2 fs); [auto|]. intros fd lit Hin Ho. apply (HL n incs fs fd lit El Hin Ho).
-      + f_equal. unfold union_val. apply fold_left_ext_in. intros uv kx _. destruct (is_null (snd kx)); [reflexivity|].
-        destruct (index_of _ _ _); [|reflexivity]. destruct (assoc_ty _ _); [|reflexivity]. rewrite HV. reflexivity.
-    - destruct d; try reflexivity. f_equal. apply map_ext. intros x. apply HV.
-    - do 2 f_equal. apply map_ext. intros kx. rewrite HV. reflexivity.
-  Qed.
-
-  Theorem decode_specX_eq : lits_agree -> forall fuel r t d,
-    decode_specX e wc excl ignore parseF fuel r t d = decode_spec e wc ignore parseF fuel r t d.
-  Proof.
-    intros HL. induction fuel as [|f IH]; intros r t d; [reflexivity|].
-    cbn [decode_specX decode_spec]. apply val_step_ext; [intros; apply IH|].
-    intros n incs fs fd lit El Hin Ho. apply (HL n incs fs fd lit f El Hin Ho).
-  Qed.
-
-  (* ... every default is declared on a type without objects (primitives, enums, fixed, arrays of those): the usual case *)
-  Fixpoint objfree (t : ty) : bool :=
-    match t with TPrim _ | TEnum _ | TFixed _ => true | TArray t' => objfree t' | _ => false end.
-
-  Definition defaults_objfree : Prop :=
-    forall n incs fs fd lit, lookup e n = Some (DRecord incs fs) -> In fd fs -> f_opt fd = Default lit -> objfree (f_ty fd) = true.
-
-  Lemma goJarr_ext DJ1 DJ2 t' : (forall x tr, DJ1 false t' x tr = DJ2 false t' x tr) ->
-    forall items i acc tr, goJarr DJ1 t' items i acc tr = goJarr DJ2 t' items i acc tr.
-  Proof.
-    intros H. induction items as [|x r IH]; intros i acc tr; [reflexivity|]. rewrite !goJarr_cons, H.
-    destruct (DJ2 false t' x (enter_array i tr)) as [[v tr']| |]; try reflexivity. cbn [bind]. apply IH.
-  Qed.
-
-  Lemma decJ_objfree : forall fuel top t d tr, objfree t = true -> decJx fuel top t d tr = decJ0 fuel top t d tr.
-  Proof.
-    induction fuel as [|f IH]; intros top t d tr Ho; [reflexivity|]. rewrite !decJ_unfold.
-    destruct t as [p|syms|sz|n|t'|t']; try discriminate; try reflexivity.
-    cbn [stepJ]. destruct d; try reflexivity. apply goJarr_ext. intros x tr0. apply IH. exact Ho.
-  Qed.
-
-  Theorem defaults_objfree_lits_agree : defaults_objfree -> lits_agree.
-  Proof.
-    intros H n incs fs fd lit f El Hin Ho. unfold lit_valueS. destruct (parse_json lit); [|reflexivity].
-    rewrite decJ_objfree; [reflexivity|]. apply (H n incs fs fd lit El Hin Ho).
-  Qed.
-
   Hypothesis Hwf : wf_schema e.
   Notation exb := (excluded_at wc excl ignore).
 
-  (* D2 in the vocabulary of C06: same value function (MissingProofs.decode_spec), filtered report *)
-  Theorem missing_exactX_spec : lits_agree -> forall fuel t data jd,
+  (* D2 with the filter written out *)
+  Theorem missing_exactX_spec : forall fuel t data jd,
     is_record e t = true -> top_ok data jd -> well_shaped e parseF fuel t jd ->
     (forall p, ~ carries e exb t jd [] p) ->
     decode_json e wc excl ignore parseF fuel t data =
@@ -1315,32 +1278,42 @@ Section Value.
     | ms => DMissing (sort_bytes ms) (decode_spec e wc ignore parseF fuel true t jd)
     end.
   Proof.
-    intros HL fuel t data jd Hrec Htop Hws Hnc.
+    intros fuel t data jd Hrec Htop Hws Hnc.
     rewrite (missing_exactX e wc excl ignore parseF Hwf fuel t data jd Hrec Htop Hws).
     destruct (first_excluded e exb fuel t jd []) as [p|] eqn:E.
     - exfalso. apply (Hnc p). apply first_excluded_sound with (fuel := fuel). exact E.
-    - rewrite reported_eq, !(decode_specX_eq HL). reflexivity.
+    - rewrite reported_eq. reflexivity.
   Qed.
 
   Definition value_of (r : dres) : option value := match r with DOk v | DMissing _ v => Some v | _ => None end.
 
   (* exclusion does not change the decoded value - provided it does not change WHETHER the top-level record raises (a raising
      record does not fill its own defaults) *)
-  Theorem value_independent_of_excl_partial : lits_agree -> forall fuel t data jd,
+  Theorem value_independent_of_excl_partial : forall fuel t data jd,
     is_record e t = true -> top_ok data jd -> well_shaped e parseF fuel t jd ->
     (forall p, ~ carries e exb t jd [] p) ->
     (reported e wc excl ignore fuel t jd [] = [] <-> missing_spec e fuel t jd [] = []) ->
     value_of (decode_json e wc excl ignore parseF fuel t data) = value_of (decode_json e wc ps_empty ignore parseF fuel t data).
   Proof.
-    intros HL fuel t data jd Hrec Htop Hws Hnc Hiff.
+    intros fuel t data jd Hrec Htop Hws Hnc Hiff.
     rewrite (missing_exact e wc ignore parseF Hwf fuel t data jd Hrec Htop Hws).
     rewrite (missing_exactX e wc excl ignore parseF Hwf fuel t data jd Hrec Htop Hws).
     destruct (first_excluded e exb fuel t jd []) as [p|] eqn:E.
     - exfalso. apply (Hnc p). apply first_excluded_sound with (fuel := fuel). exact E.
-    - rewrite !(decode_specX_eq HL).
-      destruct (reported e wc excl ignore fuel t jd []) as [|a l], (missing_spec e fuel t jd []) as [|b m]; try reflexivity.
+    - destruct (reported e wc excl ignore fuel t jd []) as [|a l], (missing_spec e fuel t jd []) as [|b m]; try reflexivity.
       + destruct Hiff as [H _]. specialize (H eq_refl). discriminate.
       + destruct Hiff as [_ H]. specialize (H eq_refl). discriminate.
+  Qed.
+
+  (* nested positions never raise: below the top level the value under ANY spec is the value without exclusions *)
+  Theorem nested_value_independent_of_excl : forall fuel t d tr v tr',
+    well_shaped e parseF fuel t d -> t_scope tr <> [SKey []] -> (t_scope tr = [] -> keys_nonempty (entries_of d)) ->
+    decJ e wc excl ignore parseF fuel false t d tr = Ok (v, tr') -> v = decode_spec e wc ignore parseF fuel false t d.
+  Proof.
+    intros fuel t d tr v tr' Hws Hsc Hke Hd.
+    pose proof (decJ_exactX e wc excl ignore parseF Hwf fuel false t d tr Hws Hsc Hke) as H.
+    destruct (first_excluded e exb fuel t d (t_scope tr)) as [p|]; [congruence|].
+    destruct H as [tr2 [H1 _]]. rewrite H1 in Hd. injection Hd as <- _. reflexivity.
   Qed.
 End Value.
 
@@ -1560,18 +1533,7 @@ Section SameContentX.
   Notation exb := (excluded_at wc excl ignore).
   Notation decJx := (decJ e wc excl ignore parseF).
   Notation well_shaped := (well_shaped e parseF).
-  Notation decode_specX := (decode_specX e wc excl ignore parseF).
-
-  Theorem sim_okX : forall fuel t d1 d2, well_shaped fuel t d1 -> sim e fuel t d1 d2 ->
-    well_shaped fuel t d2 /\
-    (forall r, decode_specX fuel r t d1 = decode_specX fuel r t d2) /\
-    (forall sc, Permutation (missing_spec e fuel t d1 sc) (missing_spec e fuel t d2 sc)).
-  Proof.
-    induction fuel as [|f IH]; intros t d1 d2 Hws Hs; [contradiction|].
-    cbn [MissingProofs.well_shaped DecodeExclProofs.decode_specX missing_spec sim] in *.
-    apply (sim_step_ok e (sim e f) parseF (decJx f) (well_shaped f) (decode_specX f false) (missing_spec e f)); [|exact Hws|exact Hs].
-    intros t0 x1 x2 Hw Hsx. destruct (IH t0 x1 x2 Hw Hsx) as [A [B C]]. auto.
-  Qed.
+  Notation decode_spec := (decode_spec e wc ignore parseF).
 
   Theorem sim_reported fuel t d1 d2 : well_shaped fuel t d1 -> sim e fuel t d1 d2 ->
     forall sc, Permutation (reported e wc excl ignore fuel t d1 sc) (reported e wc excl ignore fuel t d2 sc).
@@ -1594,14 +1556,14 @@ Section SameContentX.
       t_scope tr1 = t_scope tr2 /\ Permutation (t_missing tr1) (t_missing tr2) /\
       sort_bytes (t_missing tr1) = sort_bytes (t_missing tr2).
   Proof.
-    intros fuel top t d1 d2 tr Hws Hs Hsc Hk1 Hk2 F1 F2. destruct (sim_okX fuel t d1 d2 Hws Hs) as [Hws2 [Hv _]].
+    intros fuel top t d1 d2 tr Hws Hs Hsc Hk1 Hk2 F1 F2. destruct (sim_ok e wc ignore parseF fuel t d1 d2 Hws Hs) as [Hws2 [Hv _]].
     pose proof (sim_reported fuel t d1 d2 Hws Hs) as Hm.
     pose proof (decJ_exactX e wc excl ignore parseF Hwf fuel top t d1 tr Hws Hsc Hk1) as A. rewrite F1 in A.
     pose proof (decJ_exactX e wc excl ignore parseF Hwf fuel top t d2 tr Hws2 Hsc Hk2) as B. rewrite F2 in B.
     destruct A as [tr1 [A1 [A2 A3]]]. destruct B as [tr2 [B1 [B2 B3]]].
     assert (HP : Permutation (t_missing tr1) (t_missing tr2)).
     { rewrite A3, B3. apply Permutation_app_head. apply Hm. }
-    exists (decode_specX fuel (raisesX e wc excl ignore fuel top t d1 tr) t d1), tr1, tr2. split; [exact A1|]. split.
+    exists (decode_spec fuel (raisesX e wc excl ignore fuel top t d1 tr) t d1), tr1, tr2. split; [exact A1|]. split.
     - rewrite B1. do 2 f_equal. rewrite Hv. f_equal. unfold raisesX. f_equal. f_equal. apply is_nilb_perm.
       apply Permutation_app_head. apply Permutation_sym. apply Hm.
     - split; [congruence|]. split; [exact HP|apply sort_bytes_perm_invariant; exact HP].
@@ -1624,7 +1586,7 @@ Section SameContentX.
   Proof.
     intros fuel top t d1 d2 tr Hws Hj Hsc Hk1.
     pose proof (jperm_sim e parseF fuel t d1 d2 Hws Hj) as Hs.
-    destruct (sim_okX fuel t d1 d2 Hws Hs) as [Hws2 _].
+    destruct (sim_ok e wc ignore parseF fuel t d1 d2 Hws Hs) as [Hws2 _].
     assert (Hk2 : t_scope tr = [] -> keys_nonempty (entries_of d2)) by (intros E; apply (jperm_keys_nonempty d1 d2 Hj); exact (Hk1 E)).
     pose proof (decJ_exactX e wc excl ignore parseF Hwf fuel top t d1 tr Hws Hsc Hk1) as A.
     pose proof (decJ_exactX e wc excl ignore parseF Hwf fuel top t d2 tr Hws2 Hsc Hk2) as B.
@@ -1672,7 +1634,7 @@ Section SameContentX.
   Proof.
     intros n incs fs f top l1 l2 k x tr Hn Hk Hnew Hws Hsc Hke Hx.
     pose proof (unknown_field_sim e parseF n incs fs f l1 l2 k x Hn Hk Hnew Hws) as Hs.
-    destruct (sim_okX (S f) (TRef n) _ _ Hws Hs) as [Hws2 _].
+    destruct (sim_ok e wc ignore parseF (S f) (TRef n) _ _ Hws Hs) as [Hws2 _].
     assert (Hk1 : t_scope tr = [] -> keys_nonempty (entries_of (JObj (l1 ++ l2)))) by (intros E; exact (proj1 (Hke E))).
     assert (Hk2 : t_scope tr = [] -> keys_nonempty (entries_of (JObj (l1 ++ (k, x) :: l2)))).
     { intros E. destruct (Hke E) as [H1 H2]. simpl. unfold keys_nonempty in *. apply Forall_app in H1 as [A B].
@@ -1709,18 +1671,12 @@ Section Ror2TreeX.
   Notation tstring' := (tstring unesc empty_marker).
   Notation well_shaped_t := (well_shaped_t e parseF unesc empty_marker).
 
-  (* the decoded value of a ROR2 tree: Ror2Refines.decode_spec_t with the default literals decoded under the same spec *)
-  Fixpoint decode_spec_tX (fuel : nat) (raising : bool) (t : ty) (d : jdoc) : value :=
-    match fuel with
-    | 0 => dummy_value
-    | S f =>
-        match t with
-        | TPrim p => match tprim' p d with Ok v => v | _ => dummy_value end
-        | TEnum syms => match tstring' d with Ok s => enum_value syms s | _ => dummy_value end
-        | TFixed _ => match tstring' d with Ok b => VFixed b | _ => dummy_value end
-        | _ => val_step e parseF (mixx f) (decode_spec_tX f false) raising t d
-        end
-    end.
+  Notation decode_spec_t := (decode_spec_t e wc ignore parseF unesc empty_marker).
+  Notation mix0 f := (mixDJ e wc ps_empty ignore parseF (decTj e wc ps_empty ignore parseF unesc empty_marker f false) f).
+
+  Lemma val_excl_irrelevant_t f VS r t d :
+    val_step e parseF (mixx f) VS r t d = val_step e parseF (mix0 f) VS r t d.
+  Proof. apply val_step_ext; [reflexivity|]. intros; reflexivity. Qed.
 
   (* the analogue of decJ_exactX for the tree-level ROR2 decoder: SAME first_excluded, SAME reported *)
   Theorem decTj_exactX : forall fuel top t d tr,
@@ -1730,32 +1686,43 @@ Section Ror2TreeX.
     | Some p => decTjx fuel top t d tr = Err (EExcluded (scope_string p))
     | None =>
         exists tr',
-          decTjx fuel top t d tr = Ok (decode_spec_tX fuel (raisesX e wc excl ignore fuel top t d tr) t d, tr') /\
+          decTjx fuel top t d tr = Ok (decode_spec_t fuel (raisesX e wc excl ignore fuel top t d tr) t d, tr') /\
           t_scope tr' = t_scope tr /\
           Permutation (t_missing tr') (t_missing tr ++ reported e wc excl ignore fuel t d (t_scope tr))
     end.
   Proof.
     induction fuel as [|f IH]; intros top t d tr Hws Hsc Hke; [contradiction|].
     rewrite decTj_unfold. unfold raisesX, reported, missing_specX.
-    assert (Hchild : child_okX (mixx f) (well_shaped_t f) (decode_spec_tX f false)
+    assert (Hchild : child_okX (mixx f) (well_shaped_t f) (decode_spec_t f false)
                        (missingG e bytes (fun p => if negb (exb p) then [scope_string p] else []) f) (first_excluded e exb f)).
     { intros t0 x tr0 Hw Hne Hne2. apply (IH false t0 x tr0 Hw Hne2). intros E; contradiction. }
-    destruct t as [p|syms|sz|n|t'|t']; cbn [Ror2Refines.well_shaped_t] in Hws; cbn [stepT decode_spec_tX missingG first_excluded].
+    assert (Hcomp : forall t, match t with TRef _ | TArray _ | TMap _ => True | _ => False end ->
+              ws_step e parseF (well_shaped_t f) t d ->
+              match fe_step e exb (first_excluded e exb f) t d (t_scope tr) with
+              | Some p => stepJ e wc excl ignore parseF (mixx f) top t d tr = Err (EExcluded (scope_string p))
+              | None =>
+                  exists tr',
+                    stepJ e wc excl ignore parseF (mixx f) top t d tr
+                    = Ok (val_step e parseF (mix0 f) (decode_spec_t f false)
+                            (top && negb (is_nilb (t_missing tr ++
+                               mg_step e bytes (fun p => if negb (exb p) then [scope_string p] else [])
+                                 (missingG e bytes (fun p => if negb (exb p) then [scope_string p] else []) f) t d (t_scope tr)))) t d, tr') /\
+                    t_scope tr' = t_scope tr /\
+                    Permutation (t_missing tr')
+                      (t_missing tr ++ mg_step e bytes (fun p => if negb (exb p) then [scope_string p] else [])
+                                         (missingG e bytes (fun p => if negb (exb p) then [scope_string p] else []) f) t d (t_scope tr))
+              end).
+    { intros t0 _ Hws0.
+      pose proof (stepJ_exactX e wc excl ignore parseF (mixx f) Hwf _ _ _ _ Hchild top t0 d tr Hws0 Hsc Hke) as H.
+      destruct (fe_step e exb (first_excluded e exb f) t0 d (t_scope tr)) as [p|]; [exact H|].
+      destruct H as [tr' [H1 [H2 H3]]]. exists tr'. rewrite H1, val_excl_irrelevant_t. auto. }
+    destruct t as [p|syms|sz|n|t'|t']; cbn [Ror2Refines.well_shaped_t] in Hws; cbn [stepT Ror2Refines.decode_spec_t missingG first_excluded].
     - destruct Hws as [v Hv]. exists tr. rewrite Hv. cbn [bind mg_step]. rewrite app_nil_r. auto.
     - destruct Hws as [s Hs]. exists tr. rewrite Hs. cbn [bind mg_step]. rewrite app_nil_r. auto.
     - destruct Hws as [b [Hb Hl]]. exists tr. rewrite Hb. cbn [bind mg_step]. rewrite (proj2 (Nat.eqb_eq _ _) Hl), app_nil_r. auto.
-    - apply (stepJ_exactX e wc excl ignore parseF (mixx f) Hwf _ _ _ _ Hchild top (TRef n) d tr Hws Hsc Hke).
-    - apply (stepJ_exactX e wc excl ignore parseF (mixx f) Hwf _ _ _ _ Hchild top (TArray t') d tr Hws Hsc Hke).
-    - apply (stepJ_exactX e wc excl ignore parseF (mixx f) Hwf _ _ _ _ Hchild top (TMap t') d tr Hws Hsc Hke).
-  Qed.
-
-  (* the value is Ror2Refines.decode_spec_t (the function used for ps_empty) when the default literals are not affected *)
-  Theorem decode_spec_tX_eq : lits_agree e wc excl ignore parseF -> forall fuel r t d,
-    decode_spec_tX fuel r t d = decode_spec_t e wc ignore parseF unesc empty_marker fuel r t d.
-  Proof.
-    intros HL. induction fuel as [|f IH]; intros r t d; [reflexivity|].
-    destruct t as [p|syms|sz|n|t'|t']; cbn [decode_spec_tX decode_spec_t]; try reflexivity;
-      (apply val_step_ext; [intros; apply IH|]; intros n0 incs fs fd lit El Hin Ho; apply (HL n0 incs fs fd lit f El Hin Ho)).
+    - exact (Hcomp (TRef n) I Hws).
+    - exact (Hcomp (TArray t') I Hws).
+    - exact (Hcomp (TMap t') I Hws).
   Qed.
 
   Theorem first_excluded_complete_t : forall t d sc p, carries e exb t d sc p ->
@@ -1788,8 +1755,7 @@ Section Ror2X.
   Notation EM := v2_empty_string.
   Notation LP := v2_list_prefix.
 
-  Definition ror2_valueX (fuel : nat) (raising : bool) (t : ty) (d : rdoc) : value :=
-    decode_spec_tX e wc excl ignore parseF UN EM fuel raising t (j_of_r d).
+  Notation ror2_value := (ror2_value e wc ignore parseF fl).
 
   (* the cursor-level reader at any position: c = "not at position 0", rest = what follows the rendering *)
   Theorem decR_exactX : forall qr fuel t d c tr rest,
@@ -1800,7 +1766,7 @@ Section Ror2X.
     | None =>
         exists tr',
           decR e wc excl ignore parseF UN EM LP qr fuel t (cur c (render_r fl d ++ rest) tr)
-          = Ok (ror2_valueX fuel (raisesX e wc excl ignore fuel (negb c && negb qr) t (j_of_r d) tr) t d, cur true rest tr') /\
+          = Ok (ror2_value fuel (raisesX e wc excl ignore fuel (negb c && negb qr) t (j_of_r d) tr) t d, cur true rest tr') /\
           t_scope tr' = t_scope tr /\
           Permutation (t_missing tr') (t_missing tr ++ reported e wc excl ignore fuel t (j_of_r d) (t_scope tr))
     end.
@@ -1835,7 +1801,7 @@ Section Ror2X.
     | Some p => DErr (EExcluded (scope_string p))
     | None =>
         let ms := reported e wc excl ignore fuel t (j_of_r d) (sc_of qp) in
-        let v := ror2_valueX fuel (negb qr && negb (is_nilb ms)) t d in
+        let v := ror2_value fuel (negb qr && negb (is_nilb ms)) t d in
         match ms with
         | [] => DOk v
         | _ => if top_raises e qp t then DMissing (sort_bytes ms) v else DOk v
@@ -1852,7 +1818,7 @@ Section Ror2X.
     destruct H as [tr' [H1 [H2 H3]]].
     rewrite H1. unfold raisesX. rewrite tr_of_sc in *.
     assert (Em : t_missing (tr_of qp) = []) by (destruct qp; reflexivity). rewrite Em in *. cbn [app] in *.
-    unfold ror2_valueX. cbv zeta. unfold finish.
+    unfold Ror2Refines.ror2_value. cbv zeta. unfold finish.
     destruct (reported e wc excl ignore fuel t (j_of_r d) (sc_of qp)) as [|m ms] eqn:Ems.
     - apply Permutation_sym, Permutation_nil in H3. rewrite H3. reflexivity.
     - destruct (t_missing tr') as [|m' ms'] eqn:Et; [apply Permutation_nil in H3; discriminate|].
@@ -1867,8 +1833,8 @@ Section Ror2X.
     | Some p => DErr (EExcluded (scope_string p))
     | None =>
         match reported e wc excl ignore fuel t (j_of_r d) [] with
-        | [] => DOk (ror2_valueX fuel false t d)
-        | ms => DMissing (sort_bytes ms) (ror2_valueX fuel true t d)
+        | [] => DOk (ror2_value fuel false t d)
+        | ms => DMissing (sort_bytes ms) (ror2_value fuel true t d)
         end
     end.
   Proof.
@@ -1911,7 +1877,7 @@ Section AnyX.
     | None =>
         exists tr',
           AnyReader.decA e wc excl ignore parseF unspec fuel top t (AnyReader.of_jdoc parseF d) tr
-          = Ok (decode_specX e wc excl ignore parseF fuel (raisesX e wc excl ignore fuel top t d tr) t d, tr') /\
+          = Ok (decode_spec e wc ignore parseF fuel (raisesX e wc excl ignore fuel top t d tr) t d, tr') /\
           t_scope tr' = t_scope tr /\
           Permutation (t_missing tr') (t_missing tr ++ reported e wc excl ignore fuel t d (t_scope tr))
     end.
@@ -1928,8 +1894,8 @@ Section AnyX.
     | Some p => DErr (EExcluded (scope_string p))
     | None =>
         match reported e wc excl ignore fuel t jd [] with
-        | [] => DOk (decode_specX e wc excl ignore parseF fuel false t jd)
-        | ms => DMissing (sort_bytes ms) (decode_specX e wc excl ignore parseF fuel true t jd)
+        | [] => DOk (decode_spec e wc ignore parseF fuel false t jd)
+        | ms => DMissing (sort_bytes ms) (decode_spec e wc ignore parseF fuel true t jd)
         end
     end.
   Proof.
@@ -2065,22 +2031,18 @@ Proof.
   specialize (H Hn). discriminate.
 Qed.
 
-(* MODEL ARTEFACT (Decode.v lit_value passes the section's excl to the decoding of default literals; the generated Go code uses
-   NewJsonReader, i.e. no exclusions): a record-typed default literal with a key that matches the spec at the top of ITS OWN
-   scope is dropped by the model, kept by the implementation.  [lits_agree] is the exact side condition; [defaults_objfree]
-   (no default on a record / map / union type) implies it. *)
+(* (a record-typed default literal is NOT affected by the spec: the generated code reads it with NewJsonReader, and so does the
+   model - T { r : R = {"x":1} }, R { x : int? }, spec {x}) *)
 Definition dx_env_lit : env :=
   [ DRecord [] [ c06_fld "x" (TPrim PInt) Optional ];
     DRecord [] [ c06_fld "r" (TRef 0) (Default (c06_b "{""x"":1}")) ] ].
 
-Lemma default_literal_artefact_witness :
-  decode_json dx_env_lit c06_star (dx_ps ["x"]) 0 c06_pf 8 (TRef 1) (c06_b "{}") = DOk (VRec [] [None]) /\
+Lemma default_literal_unaffected_witness :
+  decode_json dx_env_lit c06_star (dx_ps ["x"]) 0 c06_pf 8 (TRef 1) (c06_b "{}") = DOk (VRec [] [Some (VRec [] [Some (VInt 1)])]) /\
   decode_json dx_env_lit c06_star ps_empty 0 c06_pf 8 (TRef 1) (c06_b "{}") = DOk (VRec [] [Some (VRec [] [Some (VInt 1)])]) /\
-  ~ lits_agree dx_env_lit c06_star (dx_ps ["x"]) 0 c06_pf.
-Proof.
-  split; [vm_compute; reflexivity|]. split; [vm_compute; reflexivity|].
-  intros H. specialize (H 1 [] _ _ _ 7 eq_refl (or_introl eq_refl) eq_refl). vm_compute in H. discriminate.
-Qed.
+  decode_json dx_env_lit c06_star (dx_ps ["r/x"]) 0 c06_pf 8 (TRef 1) (c06_b "{}") = DOk (VRec [] [Some (VRec [] [Some (VInt 1)])]) /\
+  decode_json dx_env_lit c06_star (dx_ps ["r/x"]) 0 c06_pf 8 (TRef 1) (c06_b "{""r"":{""x"":2}}") = DErr (EExcluded (c06_b "r.x")).
+Proof. vm_compute. repeat split; reflexivity. Qed.
 
 (* ---- (c) order independence of the ERROR: which excluded member is named depends on the order of the members ---- *)
 Definition order_independent_error_full : Prop :=
@@ -2218,17 +2180,13 @@ Lemma dx_nonvacuous :
   (exists v, decode_json c06_env c06_star dx_spec 0 c06_pf 8 (TRef 1) (c06_b dx_text) = DMissing (map c06_b ["a"; "m.k.a"]) v /\
              decode_json c06_env c06_star ps_empty 0 c06_pf 8 (TRef 1) (c06_b dx_text)
              = DMissing (map c06_b ["a"; "l[0].a"; "l[1].a"; "m.k.a"; "x"]) v) /\
-  decode_json c06_env c06_star dx_spec 0 c06_pf 8 (TRef 1) (c06_b dx_text_bad) = DErr (EExcluded (c06_b "l[1].a")) /\
-  lits_agree c06_env c06_star dx_spec 0 c06_pf.
+  decode_json c06_env c06_star dx_spec 0 c06_pf 8 (TRef 1) (c06_b dx_text_bad) = DErr (EExcluded (c06_b "l[1].a")).
 Proof.
   split; [exact c06_wf|]. split; [reflexivity|]. split; [exact dx_doc_top|]. split; [exact dx_doc_ws|].
   split.
   { intros p Hc. apply (first_excluded_complete c06_env _ c06_pf _ _ _ _ Hc 8 dx_doc_ws). vm_compute. reflexivity. }
   split; [vm_compute; reflexivity|]. split; [vm_compute; reflexivity|].
-  split; [eexists; split; vm_compute; reflexivity|]. split; [vm_compute; reflexivity|].
-  apply defaults_objfree_lits_agree. intros n incs fs fd lit Hl Hin Ho.
-  destruct n as [|[|[|n]]]; simpl in Hl; try discriminate; [| |destruct n; discriminate]; injection Hl as <- <-;
-    simpl in Hin; repeat (destruct Hin as [<-|Hin]; [try discriminate Ho; reflexivity|]); contradiction.
+  split; [eexists; split; vm_compute; reflexivity|]. vm_compute; reflexivity.
 Qed.
 
 (* the same on ROR2 input: (l:List((c:3),()),b:s,m:(k:())) - through NewRor2Reader and through the reader of query parameter p
